@@ -173,8 +173,10 @@ def run(ctx) -> None:
         ctx.check("R2", ok, f"{rw}: both paths label the record with str(file_path)", f"{rw}: diff and write path label records differently", "", loc=d.loc())
         # (4b) every file of the loop contributes its diff: no iteration skips the accumulation
         dg = cfgs.get(d.fq)
+        ret_names = {x.id for r_ in walk_no_nested(d.node) if isinstance(r_, ast.Return) and r_.value is not None for x in ast.walk(shapes.inline(d, r_.value, prog)) if isinstance(x, ast.Name)} | \
+                    {x.id for r_ in walk_no_nested(d.node) if isinstance(r_, ast.Return) and r_.value is not None for x in ast.walk(r_.value) if isinstance(x, ast.Name)}
         acc = [n for n in dg.nodes if n.kind == "stmt" and isinstance(n.ast, ast.AugAssign) and isinstance(n.ast.op, ast.Add) and n.id in dg.reachable()
-               and any(sub is ld for sub in shapes.enclosing_loops(d, n.ast))]
+               and any(sub is ld for sub in shapes.enclosing_loops(d, n.ast)) and unparse(n.ast.target) in ret_names]
         ctx.require(len(acc) == 1, f"{rw}.diff: accumulation of per-file diffs not found")
         it_node = [n for n in dg.nodes if n.kind == "iter" and n.stmt is ld]
         ctx.require(len(it_node) == 1, f"{rw}.diff: file loop header not found")
